@@ -416,7 +416,10 @@ func (s *Server) attachClient(cl *Client, listener string) error {
 	}
 
 	cl.ParseConnect(listener, pk)
-	if atomic.LoadInt64(&s.Info.ClientsConnected) >= s.Options.Capabilities.MaximumClients {
+	// take the slot first and give it back on every exit: checking the counter here and incrementing it
+	// only after authentication lets concurrent attempts all pass the check
+	if atomic.AddInt64(&s.Info.ClientsConnected, 1) > s.Options.Capabilities.MaximumClients {
+		atomic.AddInt64(&s.Info.ClientsConnected, -1)
 		if cl.Properties.ProtocolVersion < 5 {
 			s.SendConnack(cl, packets.ErrServerUnavailable, false, nil)
 		} else {
@@ -425,6 +428,7 @@ func (s *Server) attachClient(cl *Client, listener string) error {
 
 		return packets.ErrServerBusy
 	}
+	defer atomic.AddInt64(&s.Info.ClientsConnected, -1)
 
 	code := s.validateConnect(cl, pk) // [MQTT-3.1.4-1] [MQTT-3.1.4-2]
 	if code != packets.CodeSuccess {
@@ -448,9 +452,6 @@ func (s *Server) attachClient(cl *Client, listener string) error {
 
 		return packets.ErrBadUsernameOrPassword
 	}
-
-	atomic.AddInt64(&s.Info.ClientsConnected, 1)
-	defer atomic.AddInt64(&s.Info.ClientsConnected, -1)
 
 	s.hooks.OnSessionEstablish(cl, pk)
 
